@@ -109,6 +109,12 @@ MUTANTS = [
     ("connect_randomly_gt", "mosaik/util.py", "        if connects[dest] >= max_connects:", "        if connects[dest] > max_connects:", ["C18"]),
     ("connect_evenly_pos", "mosaik/util.py", "        pos += dest_size", "        pos += max(1, dest_size - 1)", ["C18"]),
     ("outset_and", "mosaik/in_or_out_set.py", "            return other - self._set", "            return other & self._set", ["C12"]),
+    ("cycle_message_wrong_path", "mosaik/scenario.py", "sim_descs[src_sim][dest_sim] = (src_to_dest, [src_sim] + path)",
+     "sim_descs[src_sim][dest_sim] = (src_to_dest, [src_sim] + path[:1] + path)", ["C06"]),
+    ("loop_guard_names_other_sim", "mosaik/scheduler.py", 'f"Simulator {sim.sid} has performed a sub-step more than "',
+     'f"Simulator {sorted(world.sims)[-1]} has performed a sub-step more than "', ["C09"]),
+    ("set_event_after_end_no_warning", "mosaik/simmanager.py", '            logger.warning(\n                "Event set at',
+     '            logger.debug(\n                "Event set at', ["C17"]),
     ("tiered_add_cutoff_max", "mosaik/tiered_time.py", "        cutoff = min(self.cutoff, other.cutoff)", "        cutoff = max(self.cutoff, other.cutoff)", ["C08"]),
 ]
 
